@@ -57,7 +57,9 @@ SPEC = dict(
     rule='seeded sequences of typed values that fit a cell (ints of widths 1..257 at 0/1/max/top-bit/min/-1, var-ints of every byte-length '
          'class incl. top-bit-set values, coins, bits, bytes, refs, maybe-refs, addr_none/extern(len 0..511)/std(+anycast)), snake byte strings '
          'of boundary lengths (chunk boundaries x prefills 0/8/3/1016/1023; chain depths 1023/1024/1025 for prefills 0/3/11/1016: root depth compared with the closed form, raise point store vs end_cell), optional dicts (HashmapE bit + ref), strings (store_string/load_string/preload_string incl. multi-byte UTF-8), '
-         'store_snake_string with and without prefix; each stored, compared bit-for-bit with an independent TL-B encoder, peeked and loaded back, and run through '
+         'store_snake_string with and without prefix; texts built from a table of 34 special code points (BOM U+FEFF / U+FFFE, NUL, controls, every kind of whitespace, first / last code point of each UTF-8 length, '
+         'surrogate-adjacent, non-characters, combining marks, case-mapping oddities) placed alone / first / last / middle / doubled / behind a NUL / first-and-last, through every string-typed operation '
+         '(store_string, preload_string / load_string with a length and with 0 = the rest, store_snake_string with / without prefix, load_snake_string, load_snake_bytes; also at / before / across a cell border of the chain), compared code point by code point; each stored, compared bit-for-bit with an independent TL-B encoder, peeked and loaded back, and run through '
          'the Lean model; distinct = distinct script; non-trivial = script has >= 1 value',
     trusted_base=['Model/Builder.lean mirrors builder.py/slice.py/TvmBitarray/address.to_cell by hand (BOp/SOp state functions)',
                   'bitarray int2ba/ba2int/slicing semantics as modelled (probed)', 'harness/gen/scripts.py: op tokens, executors, TL-B encoder',
